@@ -174,7 +174,7 @@ func (w *walker) checkState(after string, s *Snap) {
 	}
 	// C11, output side: the figures of the Solution built from this state (every third state looked at)
 	if w.count%3 == 1 {
-		w.encodeables(after)
+		w.encodeablesOf(after, !w.hiddenDesync)
 	}
 	// C01: a freshly initialised model to which exactly this set is applied
 	r := w.ref.at(s.flags)
